@@ -29,6 +29,7 @@ class Injector:
         self.prefix = os.path.join(os.path.realpath(REPO), 'labtech') + os.sep
         self.after_first = 0
         self.log = None          # when a list: (file, func, line) of every counted line event
+        self.handler_entered = False   # the coordinator's `except KeyboardInterrupt` clause was reached after the 1st interrupt
 
     def install(self):
         mon = sys.monitoring
@@ -62,9 +63,12 @@ class Injector:
         fire = False
         if not self.fired:
             fire = self.n1 is not None and self.count == self.n1
-        elif len(self.fired) == 1 and self.n2 is not None:
-            self.after_first += 1
-            fire = self.after_first == self.n2
+        elif len(self.fired) == 1:
+            if not self.handler_entered and code.co_name == 'run' and fn.endswith(os.sep + 'lab.py'):
+                self.handler_entered = True      # only the handler (or finally) of run() executes in that frame now
+            if self.n2 is not None:
+                self.after_first += 1
+                fire = self.after_first == self.n2
         if fire:
             stack = []
             f = sys._getframe(1)
@@ -73,10 +77,15 @@ class Injector:
                     stack.append(f.f_code.co_name)
                 f = f.f_back
             ev = self.events
-            started_untracked = (len(ev) >= 2 and ev[-1][0] == 'B' and ev[-2][0] == 'S' and ev[-1][1] == ev[-2][1]
-                                 and 'submit_task' in stack)
+            # F14a window: a worker process has just been started and its bookkeeping is not complete:
+            # inside _start_processes (called from submit OR from wait) after process.start(), or - in the submit
+            # path - anywhere before ProcessRunner.submit_task has registered the future
+            started_untracked = (len(ev) >= 1 and ev[-1][0] == 'B' and (
+                '_start_processes' in stack
+                or (len(ev) >= 2 and ev[-2][0] == 'S' and ev[-1][1] == ev[-2][1] and 'submit_task' in stack)))
+            merged = bool(self.fired) and not self.handler_entered
             self.fired.append((self.count, os.path.relpath(fn, self.prefix), code.co_name, lineno, len(self.events),
-                               stack[:8], bool(started_untracked)))
+                               stack[:8], bool(started_untracked), merged))
             raise KeyboardInterrupt()
 
 
@@ -131,6 +140,10 @@ def monitor(case, rec):
         return v
     if len(rec['fired']) == 2 and no_signal_check_line(rec['fired'][1][1], rec['fired'][1][3]):
         return v
+    if len(rec['fired']) == 2 and len(rec['fired'][1]) > 7 and rec['fired'][1][7]:
+        # the second interrupt was raised while the first was still propagating (before the coordinator's handler
+        # was entered): Python replaces the exception in flight, the program sees ONE interrupt
+        rec = dict(rec, fired=rec['fired'][:1], second_merged=True)
     st = rec['status']
     where = '%s:%s:%d' % tuple(rec['fired'][0][1:4])
     tag = f"interrupt at line event {rec['n1']} ({where})" + (
@@ -143,7 +156,7 @@ def monitor(case, rec):
     if late:
         v.append(f'{be}: {tag}: task {late[0][1]} was {"started" if late[0][0] == "B" else "submitted"} after the interrupt')
     # a second interrupt is a kill: what it leaves of a save in progress is C13's subject, not C14's
-    if rec['store_errors'] and len(rec['fired']) == 1:
+    if rec['store_errors'] and len(rec['fired']) == 1 and not rec.get('second_merged'):
         v.append(f'{be}: {tag}: cache entries that are reported cached but do not load: {rec["store_errors"]}')
     if be != 'serial' and not st.startswith('HANG'):
         if len(rec['fired']) == 1 and rec['terminated']:
